@@ -458,7 +458,11 @@ def loop(options: argparse.Namespace) -> None:
         if as_path is None:
             as_path = options.as_path
         if options.neighbors and not any(n == '*' for n in options.neighbors):
-            prefix = ', '.join(f'peer {neighbor}' for neighbor in options.neighbors)
+            if len(options.neighbors) == 1:
+                prefix = f'peer {options.neighbors[0]}'
+            else:
+                # several neighbors are one bracketed selector, its tokens apart: peer [ a , b ]
+                prefix = 'peer [ ' + ' , '.join(str(neighbor) for neighbor in options.neighbors) + ' ]'
         else:
             prefix = 'peer *'
         for ip in options.ips:
